@@ -253,6 +253,19 @@ func TestParallelRender(t *testing.T) {
 				rec.Violation(t, "C10:"+class+":value-under-parallel-render-differs", "%s, %d cells: at %v the renderer's worker obtained %v, sequential evaluation gives %v", desc, cells, p, rb.Val[i], v)
 			}
 		}
+		// every lattice node must have been evaluated on THIS object: a worker that evaluates a batch
+		// on some other shape leaves a hole in the record (and a wrong value in the renderer's layer)
+		if len(rb.Pts) > 0 {
+			h := sz.MaxComponent() / float64(cells)
+			ax := lat.AxesOf3(rb.Pts, 1e-9*h)
+			uniq := map[v3.Vec]struct{}{}
+			for _, p := range rb.Pts {
+				uniq[p] = struct{}{}
+			}
+			if want := len(ax.X) * len(ax.Y) * len(ax.Z); len(uniq) != want {
+				rec.Violation(t, "C10:"+class+":lattice-nodes-not-evaluated-on-this-shape", "%s, %d cells: the renderer sampled a %dx%dx%d lattice but only %d of its %d nodes were evaluated on the shape being rendered", desc, cells, len(ax.X), len(ax.Y), len(ax.Z), len(uniq), want)
+			}
+		}
 		rec.Case(pw.Overlap > 0, ev.Key(class, desc, cells), "render:"+class)
 		rec.Sample("render:"+class, map[string]any{"class": class, "shape": desc, "cells": cells, "triangles": len(ts), "evaluations": len(rb.Pts), "overlapping_evaluations": pw.Overlap})
 	})
